@@ -82,7 +82,8 @@ class Op:
 
 
 class HistoryExplorer:
-    def __init__(self, o, make_world, ops, probes, world_key_parts, max_depth=30, max_states=400, on_renorm=None):
+    def __init__(self, o, make_world, ops, probes, world_key_parts, max_depth=30, max_states=400, on_renorm=None,
+                 rebuild=None):
         self.o = o
         self.make_world = make_world
         self.ops = ops
@@ -91,6 +92,7 @@ class HistoryExplorer:
         self.max_depth = max_depth
         self.max_states = max_states
         self.on_renorm = on_renorm
+        self.rebuild = rebuild
         self.states = {}
         self.probe_digests = {}
         self.edges = 0
@@ -130,6 +132,8 @@ class HistoryExplorer:
                 g_before = global_state()
                 self.edges += 1
                 label = "%s after %d-step history" % (op.name, depth)
+                if op.kind in ("update", "renorm") and self.rebuild is not None:
+                    self.run_probes(w)  # use the live objects before they are changed (fills any hidden cache)
                 try:
                     res = op.fn(w)
                     raised = None
@@ -176,6 +180,14 @@ class HistoryExplorer:
                             token=("inv", op.name, type(raised).__name__ if raised is not None else None))
                 elif op.kind == "renorm" and self.on_renorm is not None and raised is None:
                     self.on_renorm(o, w, label)
+                if op.kind in ("update", "renorm") and self.rebuild is not None and raised is None:
+                    # I5: results depend on the arguments only - the live, updated objects must give what freshly
+                    # constructed objects with the same parameters give
+                    live = self.run_probes(w)
+                    fresh = self.run_probes(self.rebuild(w))
+                    o.check("I5 updated objects behave like freshly built ones: " + label, live == fresh,
+                            detail={k_: (live[k_], fresh[k_]) for k_ in live if live[k_] != fresh[k_]},
+                            key="I5-stale-after-update:" + op.name, token=("I5", op.name))
                 nk = self.key(w)
                 if nk in self.states:
                     # I3: history independence - the live world arrived along a new path; probes must agree
